@@ -123,6 +123,10 @@ func runTLC(dir, module string, workers int, timeout time.Duration, extra []stri
 			if strings.HasPrefix(line, "Error:") || strings.Contains(line, "is violated") || strings.Contains(line, "Exception") {
 				inErr = true
 			}
+			if strings.Contains(line, "Parsing or semantic analysis failed") {
+				// the diagnosis precedes the verdict line
+				st.Errors = append(st.Errors, tail...)
+			}
 			if inErr && len(st.Errors) < 60 {
 				st.Errors = append(st.Errors, line)
 			}
